@@ -36,6 +36,9 @@ Proof. vm_compute; reflexivity. Qed.
 (** Entry points listed here are NOT decided statically (first half of C17). *)
 Definition dynamic_only : list (string * string) := [].
 
+Lemma dynamic_only_empty : dynamic_only = [].
+Proof. reflexivity. Qed.
+
 (** Second half of C17 (earlier results do not change): entry points whose
     results are not provably detached from the receiver, with the reason.
     They are decided by the dynamic re-comparison of earlier results. *)
